@@ -558,12 +558,12 @@ impl Message {
                                                 target: Id::from_bytes(arguments.target)?,
                                                 v: arguments.v,
                                                 k,
-                                                seq: arguments.seq.expect(
-                                                    "Put mutable message to have sequence number",
-                                                ),
-                                                sig: arguments.sig.expect(
-                                                    "Put mutable message to have a signature",
-                                                ),
+                                                seq: arguments
+                                                    .seq
+                                                    .ok_or(DecodeMessageError::MissingPutMutableField)?,
+                                                sig: arguments
+                                                    .sig
+                                                    .ok_or(DecodeMessageError::MissingPutMutableField)?,
                                                 salt: arguments.salt,
                                                 cas: arguments.cas,
                                             },
@@ -923,6 +923,9 @@ pub enum DecodeMessageError {
 
     #[error("Wrong number of bytes for signed peers")]
     InvalidSignedPeersEncodingLength,
+
+    #[error("Put mutable message is missing its sequence number or signature")]
+    MissingPutMutableField,
 }
 
 #[cfg(test)]
